@@ -312,6 +312,9 @@ func buildGuest(moduleName string) []byte {
 	f6 := m.ImportFunc(w, "fd_prestat_dir_name", []byte{i32, i32, i32}, []byte{i32})
 	f7 := m.ImportFunc(w, "path_create_directory", []byte{i32, i32, i32}, []byte{i32})
 	f8 := m.ImportFunc(w, "path_remove_directory", []byte{i32, i32, i32}, []byte{i32})
+	// probe: a host function that evaluates the immutability invariant WHILE the instantiation is in progress
+	// (called by every start function); a configuration changed for the duration of the call only is caught here.
+	probe := m.ImportFunc("c19host", "probe", nil, nil)
 	m.Mem = &wb.Limits{Min: 1}
 	g := m.AddGlobal(wb.I32, true, wb.CI32(0))
 	wrap2 := func(nm string, f uint32) {
@@ -330,9 +333,10 @@ func buildGuest(moduleName string) []byte {
 	}
 	// start functions: s1 => g = g*10+1 ; s2 => g = g*10+2
 	for k, nm := range []string{"s1", "s2"} {
-		b := (&wb.Asm{}).GlobalGet(g).I32Const(10).Op(0x6c).I32Const(int32(k + 1)).Op(0x6a).GlobalSet(g).B
+		b := (&wb.Asm{}).Call(probe).GlobalGet(g).I32Const(10).Op(0x6c).I32Const(int32(k + 1)).Op(0x6a).GlobalSet(g).B
 		m.ExportFunc(nm, m.AddFunc(nil, nil, nil, b))
 	}
+	m.ExportFunc("_start", m.AddFunc(nil, nil, nil, (&wb.Asm{}).Call(probe).B)) // the default start function
 	m.ExportFunc("g", m.AddFunc(nil, []byte{i32}, nil, (&wb.Asm{}).GlobalGet(g).B))
 	m.Exports = append(m.Exports, wb.Export{Name: "memory", Kind: wb.KindMemory, Idx: 0})
 	return m.Encode()
@@ -346,6 +350,27 @@ type guestRT struct {
 	codeNamed wazero.CompiledModule // same guest with module name "gm" in its name section
 	buf       []byte                // the observation guest's single memory page, reused by this worker (see reuseMem)
 	id        int64                 // distinguishes the probe directory names of concurrently running workers
+	cur       *world                // the world whose configurations the in-flight probe checks
+	during    []string              // invariant failures seen by the probe while an instantiation was in progress
+}
+
+// probe runs inside InstantiateModule (from the guest's start function): every configuration of the current world
+// must look exactly as it did when it was created, also while it is being used.
+func (g *guestRT) probe() {
+	w := g.cur
+	if w == nil {
+		return
+	}
+	for i, n := range w.nodes {
+		if n.snap != "" && snapOf(n) != n.snap {
+			g.during = append(g.during, fmt.Sprintf("node %d (%s): %s", i, n.born, fw.SnapDiff(n.snap, snapOf(n))))
+		}
+	}
+	if w.sockCfg != nil {
+		if cur := fw.DeepSnap(w.sockCfg, follow); cur != w.sockSnap {
+			g.during = append(g.during, "socket configuration: "+fw.SnapDiff(w.sockSnap, cur))
+		}
+	}
 }
 
 var guestIDs atomic.Int64
@@ -375,6 +400,10 @@ func newGuestRT() *guestRT {
 	if _, err := wasi_snapshot_preview1.Instantiate(ctx, rt); err != nil {
 		fw.Fatalf("wasi: %v", err)
 	}
+	g := &guestRT{rt: rt, id: guestIDs.Add(1)}
+	if _, err := rt.NewHostModuleBuilder("c19host").NewFunctionBuilder().WithFunc(func() { g.probe() }).Export("probe").Instantiate(ctx); err != nil {
+		fw.Fatalf("probe host module: %v", err)
+	}
 	code, err := rt.CompileModule(ctx, guestBin)
 	if err != nil {
 		fw.Fatalf("guest module rejected: %v", err)
@@ -383,7 +412,8 @@ func newGuestRT() *guestRT {
 	if err != nil {
 		fw.Fatalf("named guest module rejected: %v", err)
 	}
-	return &guestRT{rt: rt, code: code, codeNamed: codeNamed, id: guestIDs.Add(1)}
+	g.code, g.codeNamed = code, codeNamed
+	return g
 }
 
 type observation struct {
@@ -604,9 +634,26 @@ func snapOf(n *node) string {
 func (e *explorer) apply(w *world, path []step, s step) bool {
 	o := e.opByName(s.Op)
 	parent := w.nodes[s.Parent]
+	if w.guest != nil {
+		w.guest.cur, w.guest.during = w, nil
+	}
 	nn := o.apply(w, parent)
 	e.trans.Add(1)
 	ok := true
+	if w.guest != nil {
+		if len(w.guest.during) > 0 {
+			opn := s.Op
+			if k := strings.IndexByte(opn, '('); k > 0 {
+				opn = opn[:k]
+			}
+			e.run.Violation(fmt.Sprintf("%s:%s-changes-a-configuration-while-the-call-is-in-progress", e.kind, opn),
+				fmt.Sprintf("%s applied to node %d: seen from the guest's start function, %s", s.Op, s.Parent, w.guest.during[0]),
+				map[string]any{"kind": e.kind, "path": append(append([]step{}, path...), s)})
+			e.outcomes.Inc("mutated-during-call")
+			ok = false
+		}
+		w.guest.cur, w.guest.during = nil, nil
+	}
 	for i, n := range w.nodes {
 		if cur := snapOf(n); cur != n.snap {
 			rel := "earlier-derived configuration"
